@@ -194,7 +194,7 @@ package regclient
 // for exactly this blob: a descriptor carrying external URLs would let a reachable external URL
 // answer the probe ("HEAD 2xx means present at the target" only holds for the target itself).
 //@ callsite (*RegClient).BlobHead(ctx, r, d)
-//@   prop C03
+//@   prop C03, C04
 //@   name BlobHead/BlobCopy
 //@   in ~
 //@   infunc \)\.BlobCopy$
